@@ -283,6 +283,9 @@ class LoopVC:
         for n in names:
             new[n] = spec['vars'][n](self.world, L)
         L.update(new)
+        # objects mutated in place by the loop body (e.g. `zk.append(z)`)
+        for n, fn in spec.get('mutated', {}).items():
+            fn(self.world, L)
         if hasattr(self, '_iter'):
             L['__iter'] = self._iter
         for label, f in self._inv(k, L):
